@@ -237,18 +237,28 @@ func checkC20(p *load.Program, r *kit.Report) {
 	// sizes only
 	if rd != nil {
 		var size ssa.Value
-		var copyN *ssa.Call
+		// the first use of the decoded size for reading the address: io.CopyN(…, n) or make([]byte, n)
+		var copyN ssa.Instruction
+		var sizeArg ssa.Value
 		kit.AllInstrs(rd, func(in ssa.Instruction) {
-			if c, ok := in.(*ssa.Call); ok && kit.CallID(c) == "io.CopyN" && copyN == nil {
-				copyN = c
+			if copyN != nil {
+				return
+			}
+			if c, ok := in.(*ssa.Call); ok && kit.CallID(c) == "io.CopyN" {
+				copyN, sizeArg = c, c.Call.Args[2]
+			}
+			if m, ok := in.(*ssa.MakeSlice); ok {
+				if _, isC := kit.ConstInt(m.Len); !isC {
+					copyN, sizeArg = m, m.Len
+				}
 			}
 		})
 		bad := ""
 		if copyN == nil {
-			bad = "the address bytes are not read with io.CopyN"
+			bad = "no read of the address bytes sized by the decoded length found"
 		} else {
-			// the decoded size: the local whose address is passed to binary.Read and that feeds CopyN
-			kit.DependsOn(copyN.Call.Args[2], func(v ssa.Value) bool {
+			// the decoded size: the local whose address is passed to binary.Read and that feeds the read
+			kit.DependsOn(sizeArg, func(v ssa.Value) bool {
 				if u, ok := v.(*ssa.UnOp); ok {
 					if _, isAlloc := u.X.(*ssa.Alloc); isAlloc && size == nil {
 						size = u
@@ -273,11 +283,11 @@ func checkC20(p *load.Program, r *kit.Report) {
 				bad = "the length passed to io.CopyN is not the decoded address size"
 			} else {
 				for _, v := range []int64{-1, 0, 1, 17} {
-					outs, why := evalSlice(size, v, copyN, copyN.Call.Args[2])
+					outs, why := evalSlice(size, v, copyN, sizeArg)
 					for _, got := range outs {
 						switch {
 						case v < 0 && got != evalReturned:
-							bad = "a negative address size reaches io.CopyN"
+							bad = "a negative address size reaches the read of the address bytes"
 						case v >= 0 && got == evalReturned:
 							bad = fmt.Sprintf("a record with address length %d is refused although Peer.write produces it: that peer and every peer after it is dropped by Load", v)
 						case v >= 0 && got != v:
